@@ -82,7 +82,7 @@ def _rotation(reg, model, triaxial):
     tu = cvc.model_tu(model)
     ex = CExec(tu, reg)
     lit = _lit_pi_180(tu)
-    k = z3.RealVal(lit)
+    k = cvc.cfloat(lit)
     names = ["theta", "phi", "psi", "dtheta", "dphi", "dpsi"] if triaxial else \
         ["theta", "phi", "dtheta", "dphi"]
     ang = {n: z3.Real(n) for n in names}
